@@ -199,13 +199,13 @@ fn pair_no_oracle(swarm: &Swarm, ops: &[Op], a: &mut Eval, known: &Known) {
 pub fn profiles_for(prop: &str) -> &'static [Profile] {
     use Profile::*;
     match prop {
-        "C01" => &[General, Ibc, Exit, Fees, General, Rates],
-        "C02" => &[Exit, General, Ibc, Fees, Exit],
+        "C01" => &[General, Ibc, Exit, Fees, General, Rates, Backlog],
+        "C02" => &[Exit, General, Ibc, Fees, Exit, Backlog],
         "C03" => &[General, Rates, Ibc, Exit],
         "C04" => &[Rates, Rates, General, Exit],
         "C05" => &[Exit, Exit, Lifecycle, General],
         "C06" => &[Lifecycle, Lifecycle, Exit, Halt],
-        "C07" => &[Ibc, Ibc, General, Upgrade],
+        "C07" => &[Ibc, Ibc, General, Upgrade, Backlog],
         "C08" => &[Admin, Admin, Halt, Exit, General],
         "C09" => &[Exit, Fees, Admin, General],
         "C10" => &[Halt, Halt, Admin],
@@ -213,8 +213,8 @@ pub fn profiles_for(prop: &str) -> &'static [Profile] {
         "C12" => &[Admin],
         "C14" => &[Admin],
         "C15" => &[General, Rates, Fees, Exit],
-        "C16" => &[Hostile, General, Ibc, Exit, Admin, Rates, Fees, Queries, Lifecycle, Halt, Upgrade, ManyBatches],
-        "C17" => &[Queries, Queries, Ibc, ManyBatches],
+        "C16" => &[Hostile, General, Ibc, Exit, Admin, Rates, Fees, Queries, Lifecycle, Halt, Upgrade, ManyBatches, Backlog],
+        "C17" => &[Queries, Queries, Ibc, ManyBatches, Backlog],
         "C18" => &[Upgrade],
         "C19" => &[General, Rates, Exit],
         _ => &[General],
